@@ -41,6 +41,13 @@ ASSUMPTIONS = [
     "a cyclic or too deeply nested composite has no outline on either side and only its metrics are compared",
     "a subset that returns an error is outside the property; a panic on a font allsorts itself loads is a violation",
     "charset, FDSelect and kept subroutines of CFF outputs are implementation choices: only interpreted outlines are compared",
+    "the property is stated on the abstract font: how the source stores it (numberOfContours -1 / -2 / -32768 of a composite, loca "
+    "short / long / unpadded / with unused bytes, a glyph without contours as no bytes or as a zero-contour record with or without "
+    "instructions, flag encodings of simple glyphs, numberOfHMetrics from 1 to numGlyphs, sorted or unsorted table directory, CFF "
+    "charset formats 0/1/2 and FDSelect formats 0/3) is a representation choice the prescription does not depend on (Subset.tla RepIndependent)",
+    "retained sets on the size boundaries of what the subsetters write are chosen from the source's own lengths (subset-sum); where the "
+    "implementation chooses encodings (Top DICT, FDArray, everything on the CFF2 -> CFF path) a ladder of sources / lists steps through "
+    "a window of predicted sizes; what the independent reader then measures in the output is recorded and required last",
 ]
 
 # families of component records that retained composites of REPOSITORY fonts must show in every recording
@@ -128,6 +135,27 @@ def _case_features(c):
                     f.append("comp_flag_" + name)
             if tr and any(u[5] for u in comp[t[0]]):
                 f.append("transform_under_transform")
+    # representation choices of the source (Subset.tla): what a retained glyph is stored as
+    rp = c.get("rep")
+    if rp:
+        f.append("rep_loca_" + rp["loca"].replace("-", "_"))
+        f.append("rep_directory_" + rp["dir"])
+        for g in order:
+            if comp[g]:
+                f.append("rep_composite_retained_nc_%d" % rp["ncc"][g])
+                if rp["ncc"][g] != -1 and g in req and any(t[0] not in req for t in comp[g]):
+                    f.append("rep_composite_nc_not_minus_1_pulls_in_component")
+            elif g in c["empty"]:
+                if c["instr"][g]:
+                    f.append("rep_empty_retained_zero_contours_with_instructions")
+                else:
+                    f.append("rep_empty_retained_" + rp["empty"].replace("-", "_"))
+                    if rp["empty"] == "no-bytes":
+                        f.append("rep_loca_equal_consecutive_offsets")
+            else:
+                f.append("rep_simple_retained_" + rp["simple"].replace("-", "_"))
+    if c["nhm"] == 1:
+        f.append("numberOfHMetrics_is_1")
     if any(g >= c["nhm"] for g in order):
         f.append("old_id_past_numberOfHMetrics")
     if c["nhm"] == n:
@@ -156,7 +184,64 @@ NEEDED_FEATURES = ["closure_pulls_in_components", "closure_pulls_in_several", "n
                    "comp_args_bytes", "comp_args_negative_offset", "comp_args_int8_boundary", "comp_args_just_beyond_int8",
                    "comp_args_words_where_bytes_would_do", "comp_args_int16_extreme", "comp_args_point_numbers",
                    "comp_flag_round_xy_to_grid", "comp_flag_use_my_metrics", "comp_flag_overlap_compound",
-                   "comp_flag_scaled_component_offset", "comp_flag_unscaled_component_offset", "transform_under_transform"]
+                   "comp_flag_scaled_component_offset", "comp_flag_unscaled_component_offset", "transform_under_transform",
+                   # representation variants of the source (C07-r2m3 class: whatever the subsetter decides from the bytes)
+                   "rep_composite_retained_nc_-1", "rep_composite_retained_nc_-2", "rep_composite_retained_nc_-32768",
+                   "rep_composite_nc_not_minus_1_pulls_in_component",
+                   "rep_loca_short", "rep_loca_long", "rep_loca_long_unpadded", "rep_loca_long_gaps", "rep_loca_equal_consecutive_offsets",
+                   "rep_empty_retained_no_bytes", "rep_empty_retained_zero_contours", "rep_empty_retained_zero_contours_with_instructions",
+                   "rep_simple_retained_short_vectors", "rep_simple_retained_words_repeat", "rep_simple_retained_overlap_bit",
+                   "rep_directory_sorted", "rep_directory_unsorted", "numberOfHMetrics_is_1"]
+
+# size boundaries of what the subsetters write (c07_subset/sizes.rs): the lists are chosen from the SOURCE's lengths and
+# tallied when the call is made (harness inputs).  size: = the rebuilt INDEX / table holds exactly that many bytes;
+# ladder: = a rung of a ladder of predicted sizes stepping by one byte through a window around the boundary.
+TARGETS = (254, 255, 256, 65534, 65535, 65536)
+SMALL = (254, 255, 256)
+
+
+def _size_keys(quick):
+    k = []
+    for kind, idxs in (("cff", ("charstrings", "gsubrs", "lsubrs")), ("cid", ("charstrings", "gsubrs", "lsubrs-fd0", "lsubrs-fd1"))):
+        k += ["size:%s:%d|%s|%s" % (i, t, kind, api) for i in idxs for t in TARGETS for api in ("subset", "prince")]
+        # repository fonts (Klei, SourceCodePro: name-keyed; NotoSansJP: CID-keyed): a solver over their charstring lengths
+        k += ["size:repo-charstrings:%d|%s|subset" % (t, kind) for t in TARGETS]
+        k += ["size:repo-charstrings:%d|%s|prince" % (t, kind) for t in (254, 255, 256, 65535)]
+    k += ["size:name:%d|cff|%s" % (t, api) for t in SMALL for api in ("subset", "prince")]
+    k += ["size:string:%d|cff|%s" % (t, api) for t in TARGETS for api in ("subset", "prince")]
+    k += ["size:string+cid:%d|cff|%s" % (t, api) for t in TARGETS for api in ("subset", "prince")]
+    k += ["size:cff2-name:%d|cff2|%s" % (t, api) for t in SMALL for api in ("subset", "prince")]
+    k += ["ladder:cff2-charstrings:%d:predicted=%d|cff2|%s" % (t, t + d, api) for t in TARGETS
+          for d in (range(-6, 7) if t < 1000 else range(-3, 4)) for api in ("subset", "prince")]
+    k += ["ladder:top-%s:predicted=%d|%s|subset" % (kind, p, kind) for kind in ("cff", "cid") for p in range(238, 273)]
+    k += ["ladder:fdarray:predicted=%d|cid|subset" % p for p in range(228, 279)]
+    k += ["ladder:cff2-string:copyright=%d|cff2|subset" % c for c in range(150, 246)]
+    k += ["size:glyf-short:131070|glyf|subset", "size:glyf-short:131070|glyf|prince"]
+    k += ["size:glyf-long:%d|glyf|subset" % t for t in range(131069, 131074)]
+    # glyph counts: both sides of the Type 1 -> CID threshold, ids up to 65534
+    k += ["count:%d|%s|%s" % (n, kind, api) for n in (255, 256, 257) for kind in ("cff", "cid", "cff2") for api in ("subset", "prince")]
+    k += ["count:glyf:ids-up-to-65534|glyf|subset", "count:cid:ids-up-to-65534|cid|subset"]
+    if not quick:
+        k += ["count:glyf:65535-glyphs-retained|glyf|subset", "count:cid:65535-glyphs-retained|cid|subset"]
+    # representation variants of CFF-family and glyf sources
+    k += ["rep:source:cff:charset-format-%d" % i for i in (0, 1, 2)] + ["rep:source:cid:charset-format-%d" % i for i in (0, 1, 2)]
+    k += ["rep:source:cid:fdselect-format-0", "rep:source:cid:fdselect-format-3", "rep:source:glyf:short-loca-ends-at-131070",
+          "rep:source:glyf:long-loca-odd-offsets", "rep:source:glyf:65535-glyphs", "rep:source:cid:65535-glyphs",
+          "rep:repo-glyf:nc=-2,long-unpadded,unsorted-directory", "rep:repo-glyf:nc=-32768,loca-as-source,sorted-directory",
+          "rep:repo-glyf:composites-requested:nc=-2", "rep:repo-glyf:composites-requested:nc=-32768"]
+    return k
+
+
+# what the independent readers measured in the OUTPUT (decided last: a broken tree may fail to produce them, which then
+# shows as violations): every rebuilt INDEX really sat on every boundary
+def _measured_keys():
+    k = []
+    for kind, idxs in (("cff", ("charstrings", "gsubrs", "lsubrs", "string")), ("cid", ("charstrings", "gsubrs", "lsubrs")), ("cff2", ("charstrings",))):
+        k += ["measured:%s:%s:%d" % (kind, i, t) for i in idxs for t in TARGETS]
+    k += ["measured:%s:%s:%d" % (kind, i, t) for t in SMALL for kind, i in
+          (("cff", "name"), ("cff", "top"), ("cid", "top"), ("cid", "fdarray"), ("cff2", "name"), ("cff2", "string"))]
+    k += ["measured:glyf:131070:short-loca"] + ["measured:glyf:%d:long-loca" % t for t in range(131069, 131074)]
+    return k
 
 
 def _container(case):
@@ -415,6 +500,39 @@ def _eval_selfcheck(fams, mism, have_violations):
 
 
 def run(ctx):
+    """Violations take precedence over tool problems: whatever was found before a later stage failed is reported
+    (exit 1); a tool error (exit 2) is raised only when there is nothing new to report."""
+    found, cov = [], {}
+    try:
+        _run(ctx, found, cov)
+    except SystemExit:
+        raise
+    except Exception as e:        # ToolError, or a driver exception on output it did not expect
+        known = vlib.load_known(ctx.prop)
+        if not any(v.key not in known for v in found):
+            raise
+        ctx.note("a later stage failed after violations had been found; reporting the violations. Tool problem: %s" % str(e)[:1500])
+        for k in ("states", "transitions", "traces_validated_against_impl"):
+            cov.setdefault(k, 0)
+        cov.setdefault("samples", [])
+        cov["incomplete_run"] = str(e)[:500]
+        vlib.finish(ctx, LEVEL, cov, found, ASSUMPTIONS)
+
+
+def _gen_violations(gen_mism, per_key):
+    out = []
+    for m in gen_mism:
+        key = "gen|%s" % m["class"]
+        per_key[key] = per_key.get(key, 0) + 1
+        if per_key[key] > 1:
+            continue
+        what = "generated case %s #%d: %s: input %s: prescribed %s, observed %s" % (
+            m["cfg"], m["case"], m["class"], vlib.short(m["input"], 200), vlib.short(m["exp"], 200), vlib.short(m["obs"], 200))
+        out.append(Violation(key, what, {"source": "generated", "mismatch": m}))
+    return out
+
+
+def _run(ctx, found, cov):
     binp = vlib.build_harness("c07_subset")
     features, samples = {}, []
     gen_traces, gen_mism = [], []
@@ -431,6 +549,10 @@ def run(ctx):
         for m in vlib.read_ndjson(mism_path):
             m["cfg"] = cfg
             gen_mism.append(m)
+        # what replay found is reported even if a later stage (recording, judge, guards) fails
+        del found[:]
+        found.extend(_gen_violations(gen_mism, {}))
+        cov.update({"states": states, "generated_cases": total_cases})
         if first_cases is None:
             first_cases = cases_path
             replay_self = _selfcheck_replay(ctx, binp, cases_path)
@@ -449,7 +571,7 @@ def run(ctx):
     for k in ("fonts:glyf", "fonts:cff", "fonts:cid", "fonts:cff2", "fonts:cff_with_subroutines", "fonts:cid_with_subroutines",
               "rewrapped_woff", "rewrapped_woff2", "type1_converted_to_cid", "pulled_in_components",
               "glyphs_old_id_past_numberOfHMetrics", "ok:glyf:prince", "ok:cff:prince", "fonts:syn-cff2", "fonts:syn-cid") \
-            + RECORDED_COMPOSITE_FAMILIES + RECORDED_BOUNDARY_KEYS:
+            + RECORDED_COMPOSITE_FAMILIES + RECORDED_BOUNDARY_KEYS + tuple(_size_keys(ctx.quick)) + tuple(_measured_keys()):
         if tally.get(k, 0) == 0:
             # decided at the end: on a broken tree (subset calls that panic or fail) a family may be missing BECAUSE of
             # the defect, which is then reported as a violation; without such a violation it is a tool error
@@ -495,15 +617,8 @@ def run(ctx):
             vacuous.append("judge:" + k)
 
     # violations
-    violations, per_key = [], {}
-    for m in gen_mism:
-        key = "gen|%s" % m["class"]
-        per_key[key] = per_key.get(key, 0) + 1
-        if per_key[key] > 1:
-            continue
-        what = "generated case %s #%d: %s: input %s: prescribed %s, observed %s" % (
-            m["cfg"], m["case"], m["class"], vlib.short(m["input"], 200), vlib.short(m["exp"], 200), vlib.short(m["obs"], 200))
-        violations.append(Violation(key, what, {"source": "generated", "mismatch": m}))
+    per_key = {}
+    violations = _gen_violations(gen_mism, per_key)
     bad = [m for m in mism if not m["case"].startswith("selftest-")]
     first = {}
     for m, key in zip(bad, _keys_trace(bad)):
@@ -527,6 +642,8 @@ def run(ctx):
         violations.append(Violation(key, what, {"source": "recorded", "mismatch": m, "events": events.get(m["case"], [])}))
     for k, n in sorted(per_key.items()):
         ctx.note("mismatch class %s: %d" % (k, n))
+    del found[:]
+    found.extend(violations)
 
     if vacuous:
         known = vlib.load_known(ctx.prop)
@@ -535,7 +652,8 @@ def run(ctx):
             raise vlib.ToolError("vacuous for %s" % ", ".join(vacuous[:8]))
         ctx.note("families not exercised on this tree, with new violations reported (%s): %s" % (", ".join(fresh[:4]), ", ".join(vacuous)))
 
-    coverage = {
+    coverage = cov
+    coverage.update({
         "states": states,
         "transitions": total,
         "traces_validated_against_impl": total_cases + total - len(planted),
@@ -554,7 +672,7 @@ def run(ctx):
         "exhaustive": True,
         "explanation": "exhaustive over the bounded model (configs %s); repository fonts: %s" % (
             ", ".join(c for c, _ in CONFIGS[ctx.tier]), "seeded sample" if ctx.quick else "all, larger id lists"),
-    }
+    })
     vlib.finish(ctx, LEVEL, coverage, violations, ASSUMPTIONS)
 
 
